@@ -8,6 +8,11 @@ def build(repo, tier, seed):
     syn3, u3 = option_c04.init_normalisation(repo)
     syn4, u4 = option_c04.auto_and_namespace(repo)
     syn5, u5 = lazy_c06.obligations(repo, ["Option"])
+    from . import templated_keys_proof
+    v6, u6 = templated_keys_proof.build(repo)
+    v7, u7 = templated_keys_proof.option_contract(repo)
+    vcs = vcs + v6 + v7
+    und = und + u6 + u7
     b = classlaws.bundle(repo, tier, seed, ("L1", "L3", "L4a"), classes=["Option"], extra_vcs=vcs + v2, bounded=False)
     b["syntactic"] += syn2 + syn3 + syn4 + syn5
     b["undecided"] += und + u2 + u3 + u4 + u5
@@ -22,6 +27,6 @@ def build(repo, tier, seed):
                      "cases": len(lawsearch.RECIPES.get("Namespace", [])) * 55}]
     b["bounded_witnesses"] = [("Namespace:C04(bounded)", nsw)] if nsw else []
     b["assumptions"] += ["the stored value is resolved by confectioner.resolve (assumed contract: template-free values incl. None, 0, False, '', [], {} are returned unchanged)",
-                         "Option.keys/explain rely on the contract of option._templated_keys (tk_contract_axioms), stated but not yet proved against its recursive body",
+                         "the contract of option._templated_keys used by Option.keys/explain is PROVED against its recursive body (group _templated_keys:contract) relative to the assumed, bounded-validated structure of confectioner.resolve (OptTheory.resolve.structure) and A-noparam",
                          "Namespace._from_type and Namespace.evaluate/_populate are covered by the bounded stand-in only"]
     return b
